@@ -81,7 +81,9 @@ def run():
     rep.functions.append(func_source_info(REL, "SymmetryAnalyzer._find_wyckoff_ground_state"))
     rep.obligations.extend(tabvc.run_family(_group, list(range(1, 231))))
     nz = tabvc.run_family(tabvc.normalizer_obligations, list(range(1, 231)))
-    rep.obligations.extend(o for o in nz if o.id.split("[")[0] in ("nz.closed", "nz.perm-wf"))
+    # closed, well formed, and every tabulated permutation is the action of its own normalizer on the Wyckoff positions (otherwise the
+    # relabelled descriptions compared below would not be descriptions of the same crystal)
+    rep.obligations.extend(o for o in nz if o.id.split("[")[0] in ("nz.closed", "nz.perm-wf", "nz.perm", "nz.normalises"))
     # the table represents the whole Euclidean normalizer (proper part for Sohncke groups): otherwise two descriptions of one crystal that
     # differ by an unlisted normalizer are ranked over different candidate sets
     rep.obligations.extend(tabvc.run_family(tabvc.normalizer_complete_obligation, list(range(1, 231))))
@@ -236,6 +238,8 @@ def replay(ob):
             try:
                 at = tr.pinned_probe(sg, extra, npin=1)
                 if len(at) > 200:
+                    at = tr.probe(sg, extra)  # high-multiplicity positions: without the pinning general position
+                if len(at) > 330:
                     continue
                 a0 = tr.analyze(at)
                 ref = (a0.get_material_id(), int(a0.get_space_group_number()), sorted((s.wyckoff_letter, s.element, len(s.indices)) for s in a0.get_wyckoff_sets_conventional(False)),
